@@ -486,3 +486,12 @@ pub fn heap_script(cap_cells: usize, ops: &[String]) -> Vec<String> {
     verif_set_grow_budget(None);
     out
 }
+
+/// Named size counters of `machine`'s stores (C35): heap cells in use, atom-table entries,
+/// stack bytes, trail length, code-area length, code-index entries, float-table entries,
+/// arena slabs, load contexts, streams, and the sizes of the loader's directories
+/// (predicates, operators, meta-predicate declarations, expansions, modules, skeletons).
+/// Read-only; the order of the counters is fixed.
+pub fn machine_footprint(machine: &crate::Machine) -> Vec<(&'static str, usize)> {
+    machine.verif_footprint()
+}
